@@ -139,8 +139,14 @@ package j5convert
 //@   ensures result == nil ==> extof(ext_j5pb.E_Field, dest) == old(extof(ext_j5pb.E_Field, dest))
 //@   ensures fieldType == "object" && result != nil ==> typeis(result.Type, *ext_j5pb.FieldOptions_Object) && as(*ext_j5pb.FieldOptions_Object, result.Type) != nil && as(*ext_j5pb.FieldOptions_Object, result.Type).Object != nil
 
+// in / not_in rules name enum options with or without the prefix; each name is looked up in the
+// enum's value table and replaced by its number, in order, or the whole rule is rejected (C12)
 //@ func (*EnumRef).mapValues
-//@   modifies nothing
+//@   requires er != nil
+//@   ensures ok: result1 == nil ==> len(result0) == len(vals) && forall i int :: 0 <= i && i < len(vals) ==>
+//@   |   has(er.ValMap, pfx(er.Prefix, vals[i])) && result0[i] == er.ValMap[pfx(er.Prefix, vals[i])]
+//@   loop 0 invariant len(out) == len(vals) && fresh(out)
+//@   loop 0 invariant forall i int :: 0 <= i && i < $iter ==> has(er.ValMap, pfx(er.Prefix, vals[i])) && out[i] == er.ValMap[pfx(er.Prefix, vals[i])]
 
 // Every extension that ends up on the field's options has its defining file imported (otherwise the
 // generated file does not link), and every proto.SetExtension passes the extension's declared
@@ -284,6 +290,21 @@ package j5convert
 //@   |   && *vstr(result0.Options).Pattern == as(*schema_j5pb.KeyFormat_Custom_, keyField(node).Format.Type).Custom.Pattern
 //@   ensures enum.defined: result1 == nil && typeis(node.Schema, *schema_j5pb.Field_Enum) ==> vrules(result0.Options) != nil && typeis(vrules(result0.Options).Type, *validate.FieldConstraints_Enum)
 //@   |   && as(*validate.FieldConstraints_Enum, vrules(result0.Options).Type).Enum != nil && as(*validate.FieldConstraints_Enum, vrules(result0.Options).Type).Enum.DefinedOnly != nil && *as(*validate.FieldConstraints_Enum, vrules(result0.Options).Type).Enum.DefinedOnly
+
+// enum in / not_in (C12): one number per declared name, in order, looked up in the referenced enum's
+// value table (the element-wise statement is asserted where the rule is attached, with the resolved
+// enum in scope; the counts are a postcondition)
+//@ spec func enumSch(node sourcewalk.FieldNode) *schema_j5pb.EnumField = as(*schema_j5pb.Field_Enum, node.Schema).Enum
+//@ spec func venum(o *descriptorpb.FieldOptions) *validate.EnumRules = as(*validate.FieldConstraints_Enum, vrules(o).Type).Enum
+//@ func buildField
+//@   ensures enum.in.count: result1 == nil && typeis(node.Schema, *schema_j5pb.Field_Enum) && enumSch(node).Rules != nil ==>
+//@   |   len(venum(result0.Options).In) == len(enumSch(node).Rules.In) && len(venum(result0.Options).NotIn) == len(enumSch(node).Rules.NotIn)
+//@   ensures enum.in.none: result1 == nil && typeis(node.Schema, *schema_j5pb.Field_Enum) && enumSch(node).Rules == nil ==>
+//@   |   len(venum(result0.Options).In) == 0 && len(venum(result0.Options).NotIn) == 0
+//@   assert at ensureImport#3 enum.in: st.Enum.Rules != nil ==> forall i int :: 0 <= i && i < len(st.Enum.Rules.In) ==>
+//@   |   enumRules.In[i] == enumRef.ValMap[pfx(enumRef.Prefix, st.Enum.Rules.In[i])]
+//@   assert at ensureImport#3 enum.notin: st.Enum.Rules != nil ==> forall i int :: 0 <= i && i < len(st.Enum.Rules.NotIn) ==>
+//@   |   enumRules.NotIn[i] == enumRef.ValMap[pfx(enumRef.Prefix, st.Enum.Rules.NotIn[i])]
 
 // arrays and required members (C12): the declared item-count rules and the required flag reach the
 // compiled constraint whatever the item type is
